@@ -444,6 +444,7 @@ OrderAlphabet ==       \* C03: definition chains / diamonds / uses in every oper
     Const("a", Bin("/", B, Num(2))), Const("b", Bin("+", A, Num(1))), Const("d", Bin("<<", Sym("c"), Num(1))),
     Lab("l"), Lab("m"), W(<<A>>), W(<<B, Sym("c")>>), By(<<Sym("c")>>), I1("movi", A), I1("mova", B), I1("movx", Sym("c")),
     I1("br", Bin("+", Dot, Sym("c"))), Blkb(Sym("c")), Blkb(B), [k |-> "align", e |-> Sym("c")], Rep(2, << W(<<A>>) >>),
+    Rep(3, << I1("movr", Sym("c")) >>), Rep(2, << W(<< Bin("+", Dot, Sym("c")) >>), I1("br", Bin("+", Dot, Sym("c"))) >>),
     DotSet(Bin("+", Dot, Sym("c"))), W(<<Sym("d"), Bin("-", Sym("m"), Sym("l"))>>), I0("nop"),
     \* two symbols that both depend on one later label, combined; a product of two not yet known values
     Const("p", Bin("+", Sym("l"), Num(2))), Const("q", Bin("+", Sym("l"), Num(102))), W(<< Bin("-", Sym("q"), Sym("p")) >>),
@@ -461,7 +462,9 @@ OrderCoreAlphabet ==   \* C03: the core of OrderAlphabet, small enough for all p
   { Const("a", Bin("+", B, Num(1))), Const("b", Bin("*", Sym("c"), Num(2))), Const("c", Num(5)),
     Const("p", Bin("+", Sym("l"), Num(2))), Const("q", Bin("+", Sym("l"), Num(102))), Lab("l"),
     W(<< Bin("-", Sym("q"), Sym("p")) >>), W(<< A >>), W(<< Bin("*", Bin("+", A, Num(1)), B) >>), Blkb(Sym("c")), I1("movi", A), I0("nop"),
-    I1("movx", Bin("-", Sym("q"), Sym("p"))), [k |-> "asciic", cs |-> << [u |-> <<1078, 1091>>], [e |-> Sym("c")], [e |-> Num(10)] >>] }
+    I1("movx", Bin("-", Sym("q"), Sym("p"))), [k |-> "asciic", cs |-> << [u |-> <<1078, 1091>>], [e |-> Sym("c")], [e |-> Num(10)] >>],
+    \* a repeat body that depends on its own address AND on a constant defined anywhere: copies 2.. must see their own '.'
+    Rep(3, << I1("movr", Sym("c")) >>) }
 
 ScopeAlphabet ==       \* C11: reused local and private names, all export forms, all orders
   { Lab("a"), LabX("a"), Lab("b"), Lab("1"), Lab("2"), Const("a", Num(7)), ConstX("a", Num(11)), Const("b", Num(13)),
